@@ -4,6 +4,7 @@ package main
 
 import (
 	"fmt"
+	"go/constant"
 	"go/token"
 	"strings"
 
@@ -351,6 +352,17 @@ func counterStores(f *ssa.Function, op token.Token) []ssa.Instruction {
 }
 
 func isCounterStore(i ssa.Instruction, op token.Token) bool {
+	// a call of a helper `func (s *T) add(delta int) { s.accessCounter += delta }` with a constant +1 / −1
+	if cv, isCall := i.(*ssa.Call); isCall {
+		if h := staticCallee(cv); h != nil && h.Blocks != nil && h.Signature.Recv() != nil && i.Parent() != nil && h.Pkg == i.Parent().Pkg {
+			if k, ok := counterDeltaParam(h); ok && k < len(cv.Call.Args) {
+				if d, isC := constOf(cv.Call.Args[k]); isC && d.Kind() == constant.Int {
+					return (op == token.ADD && d.ExactString() == "1") || (op == token.SUB && d.ExactString() == "-1")
+				}
+			}
+		}
+		return false
+	}
 	st, ok := i.(*ssa.Store)
 	if !ok {
 		return false
@@ -664,4 +676,44 @@ func reachesRelease(g *ssa.Function, depth int) bool {
 		}
 	})
 	return hit
+}
+
+// counterDeltaParam: h's only effect on accessCounter is `accessCounter = accessCounter + <parameter k>` on every path;
+// returns k.
+func counterDeltaParam(h *ssa.Function) (int, bool) {
+	k := -1
+	var step ssa.Instruction
+	n := 0
+	allInstrs(h, func(i ssa.Instruction) {
+		st, ok := i.(*ssa.Store)
+		if !ok {
+			return
+		}
+		if _, fld, isF := fieldAccess(st.Addr); !isF || fld != "accessCounter" {
+			return
+		}
+		n++
+		b, isB := st.Val.(*ssa.BinOp)
+		if !isB || b.Op != token.ADD {
+			return
+		}
+		if _, fld, isF := fieldAccess(b.X); !isF || fld != "accessCounter" {
+			return
+		}
+		p, isP := strip(b.Y).(*ssa.Parameter)
+		if !isP {
+			return
+		}
+		for j, q := range h.Params {
+			if q == p {
+				k = j
+				step = i
+			}
+		}
+	})
+	if n != 1 || k < 0 {
+		return 0, false
+	}
+	ok, _ := mustPass(h.Blocks[0], 0, func(i ssa.Instruction) bool { return i == step }, nil)
+	return k, ok
 }
